@@ -44,12 +44,13 @@ def from_any(vm, m, v):
     if isinstance(v, SliceRef): return LIter('seq', tuple(v.elem_ref(k) for k in range(v.count)), 0, v.count)
     if isinstance(v, Ref):
         t = vm.read_at(m, v.cell, v.path)
+        if isinstance(t, (LIter, Iter)) or (isinstance(t, Struct) and t.ty in ('Range', 'RangeInclusive', 'ChunksExact')):
+            return LIter('byref', v)           # `&mut iterator` is itself an iterator that advances the one it points to
         if isinstance(t, Seq): return LIter('seq', tuple(Ref(v.cell, v.path + (('i', k),)) for k in range(len(t.items))), 0, len(t.items))
         if isinstance(t, (SliceRef, Iter, LIter, Ref)): return from_any(vm, m, t)
         if isinstance(t, Enum) and t.ty in ('Option', 'Result'):      # (&opt).into_iter()
             if t.name in ('Some', 'Ok'): return LIter('seq', (Ref(v.cell, v.path + (('f', 0),)),), 0, 1)
             return LIter('seq', (), 0, 0)
-        if isinstance(t, Struct) and t.ty in ('ChunksExact', 'RangeInclusive'): return from_any(vm, m, t)
         if isinstance(t, Struct) and t.ty in ('HashMap', 'HashSet', 'Range'):
             from .iters import to_iter
             return from_any(vm, m, to_iter(vm, m, v))
@@ -92,6 +93,12 @@ def _call(vm, m, f, args):
 def lnext(vm, m, it, back=False):
     """one item from the front (or, for double-ended iterators, the back): list of (machine, kind, value | END | panic payload, new iterator)"""
     k = it.k; a = it.a
+    if k == 'byref':
+        r = a[0]; inner = from_any(vm, m, vm.read_at(m, r.cell, r.path)); outs = []
+        for (m1, kd, v, s2) in lnext(vm, m, inner, back):
+            if kd == 'ret': vm.write_at(m1, r.cell, list(r.path), s2)
+            outs.append((m1, kd, v, it))
+        return outs
     if k == 'seq':
         items, lo, hi = a
         if lo >= hi: return [(m, 'ret', END, it)]
@@ -287,6 +294,7 @@ def _is_some(vm, m, r):
 def llen(vm, m, it):
     """exact remaining length where it is known without running closures, else None"""
     k = it.k; a = it.a
+    if k == 'byref': return llen(vm, m, from_any(vm, m, vm.read_at(m, a[0].cell, a[0].path)))
     if k == 'seq': return max(0, a[2] - a[1])
     if k in ('map', 'inspect', 'cloned', 'rev', 'enumerate'): return llen(vm, m, a[0])
     if k == 'zip':
@@ -440,7 +448,8 @@ def dispatch(vm, m, c, args):
         # methods taking &mut self: operate on the iterator stored behind the reference and write the advanced state back
         r = args[0]
         if not isinstance(r, Ref): raise VMError('%s on a non-reference iterator' % n)
-        it = from_any(vm, m, _deref_once(vm, m, r))
+        stored = _deref_once(vm, m, r)
+        it = from_any(vm, m, stored)
         if it is None: return NotImplemented
         if n == 'by_ref': return ret(m, r)
         if n in ('next', 'next_back'):
